@@ -66,3 +66,12 @@ Check c09_generic_first_crlf : forall (natf : string -> list val -> ares) (env :
   forall fuel g dp, stail is_tail g = true -> forall i a after r v u, split_crlf i = Some (a, after) -> ends_brace a = false ->
     run natf env bound fuel g dp i = ROk r v u -> r = after /\ u = nlen a + 2.
 Print Assumptions c09_generic_first_crlf.
+
+(* the functions and closures that Natives.v models by hand are, token for token, the ones the models were written for *)
+From TI Require NativeSources.
+Theorem c09_hand_models_match_source :
+  gen_native_fns = NativeSources.modelled_fn_sources /\ gen_native_actions = NativeSources.modelled_action_sources.
+Proof. exact NativeSources.hand_models_match_source_lemma. Qed.
+Check c09_hand_models_match_source :
+  gen_native_fns = NativeSources.modelled_fn_sources /\ gen_native_actions = NativeSources.modelled_action_sources.
+Print Assumptions c09_hand_models_match_source.
